@@ -8,7 +8,7 @@ bit-vectors (BV mode).  Everything the executor does not understand raises
 NotEncoded - an obligation that hits it is reported as not encoded, never as
 discharged.
 """
-import re, itertools
+import re, itertools, os
 import z3
 from .mirparse import INT_TY, split_top, match_paren, Func
 
@@ -981,15 +981,31 @@ class Exec:
 
     # -------------------------------------------------------------- feasibility
     def feasible(self, pc, extra=()):
-        s = z3.Solver()
-        s.set('timeout', 3000)
-        for f in self.invariants:
-            s.add(f)
-        for f in pc:
-            s.add(f)
-        for f in extra:
-            s.add(f)
-        return s.check() != z3.unsat
+        # one long-lived solver holding the invariants; the path condition goes in under push/pop (the python API overhead of re-asserting
+        # everything on a fresh solver dominated long explorations), answers memoised on the ids of the conjuncts
+        fs = list(pc) + list(extra)
+        key = (len(self.invariants), tuple(sorted(f.get_id() for f in fs)))
+        memo = self.__dict__.setdefault('_feas_memo', {})
+        if key in memo:
+            return memo[key]
+        sv = self.__dict__.get('_feas_solver')
+        if sv is None or sv[0] != len(self.invariants):
+            s = z3.Solver()
+            s.set('timeout', 3000)
+            for f in self.invariants:
+                s.add(f)
+            sv = self.__dict__['_feas_solver'] = (len(self.invariants), s)
+        s = sv[1]
+        s.push()
+        try:
+            if fs:
+                s.add(*fs)
+            r = s.check() != z3.unsat
+        finally:
+            s.pop()
+        if len(memo) < 200000:
+            memo[key] = r
+        return r
 
     # -------------------------------------------------------------- stubs
     def stub(self, pattern, fn, tag=None):
@@ -1402,7 +1418,9 @@ class Exec:
         if len(cands) > 1 and len({(f.name, tuple(f.args), re.sub(r'\s*//[^\n]*', '', f.text).strip()) for f in cands}) == 1:
             cands = cands[:1]       # `const fn` / tuple-variant constructors are dumped twice (runtime MIR and MIR for CTFE) with identical bodies
         if len(cands) == 1:
-            return (cands[0], None) if cands[0].blocks else None
+            if not cands[0].blocks:
+                return None
+            return (cands[0], self.turbofish_subst(callee, cands[0]))
         if len(cands) > 1:
             raise NotEncoded(f'ambiguous callee {callee}: {len(cands)} bodies')
         # 2. Type::method  ->  <impl at file:line>::method whose impl header names Type
@@ -1486,6 +1504,39 @@ class Exec:
         if len(out) > 1:
             raise NotEncoded(f'ambiguous callee {callee}: {[f.name for f, _ in out][:4]}')
         return None
+
+    def turbofish_subst(self, callee, func):
+        """`name::<A, B>` calling a free generic function `fn name<K, V>(..)`: bind the function's type parameters (read from its source header) to the written arguments"""
+        m = re.search(r'::<(.*)>$', callee)
+        if not m or '<impl at' in func.name:
+            return None
+        key = ('generics', func.name)
+        if key not in self.memo:
+            names = []
+            try:
+                lines = open(os.path.join(self.src_root, func.file)).read().split('\n')
+                text = ' '.join(lines[max(0, func.line - 12): func.line + 6])
+                base = func.name.split('::')[-1]
+                mh = re.search(r'\bfn\s+' + re.escape(base) + r'\s*<', text)
+                if mh:
+                    i, d, j = mh.end(), 1, mh.end()
+                    while j < len(text) and d:
+                        d += text[j] == '<'
+                        d -= (text[j] == '>' and text[j - 1] != '-')
+                        j += 1
+                    for part in split_top(text[i:j - 1]):
+                        part = part.strip()
+                        if part and not part.startswith("'") and not part.startswith('const '):
+                            names.append(re.split(r'[:\s=]', part, 1)[0])
+            except (OSError, AttributeError, TypeError):
+                names = []
+            self.memo[key] = names
+        names = self.memo[key]
+        args = [a.strip() for a in split_top(m.group(1)) if not a.strip().startswith("'")]
+        if not names or len(args) < len(names):
+            return None
+        sub = {n: a for n, a in zip(names, args) if n != a}
+        return sub or None
 
     def impl_header(self, file, line, col=None):
         key = ('impl', file, line, col)
